@@ -572,3 +572,5 @@ func pickN(c *ev.Check, quick, thor int) int {
 	}
 	return quick
 }
+
+var classMu sync.Mutex
